@@ -90,4 +90,10 @@ theorem allOf_bounds_iff (u₁ l₁ u₂ l₂ : BoundM.Bnd) (x : Int) :
       ((BoundM.okUpper u₁ x ∧ BoundM.okLower l₁ x) ∧ (BoundM.okUpper u₂ x ∧ BoundM.okLower l₂ x)) :=
   BoundM.merge_iff u₁ l₁ u₂ l₂ x
 
+/-- the count keywords of an allOf merge (string lengths, item and property counts) accept exactly the counts both
+    members' keywords accept -/
+theorem allOf_counts_iff (mn₁ mx₁ mn₂ mx₂ : Option Nat) (n : Nat) :
+    BoundM.okCount (BoundM.mergeMin mn₁ mn₂) (BoundM.mergeMax mx₁ mx₂) n ↔
+      BoundM.okCount mn₁ mx₁ n ∧ BoundM.okCount mn₂ mx₂ n := BoundM.mergeCount_iff mn₁ mx₁ mn₂ mx₂ n
+
 end C03
